@@ -1027,6 +1027,9 @@ func (nd *crNode) cleanup() {}
 
 var crTmpRoot string
 
+// crArchiveMode: state-cache mode of the case this process runs (one case per process)
+var crArchiveMode bool
+
 // dead reports whether the receive routine has exited on its own (CONSENSUS FAILURE).
 func (nd *crNode) dead() bool {
 	if nd.cs == nil {
@@ -1263,6 +1266,21 @@ func crCut(base *crImg, l *crLife, j int, tail string) *crImg {
 	}
 	if j < len(l.log) {
 		before = crKindShort(l.log[j])
+	} else if j > 0 {
+		// the life was stopped inside a commit pipeline: name the write that would have come next
+		last := l.log[j-1]
+		switch {
+		case last.wal && strings.HasPrefix(last.kind, "wal:eh:") && last.height > 0:
+			before = fmt.Sprintf("binfo(%d)", last.height)
+		case last.kind == "binfo" && crArchiveMode:
+			before = "trie"
+		case last.kind == "binfo":
+			before = fmt.Sprintf("head(%d)", last.height)
+		case last.kind == "head":
+			before = fmt.Sprintf("cstate(%d)", last.height)
+		case last.kind == "trie" && j > 1 && l.log[j-2].kind == "binfo":
+			before = fmt.Sprintf("head(%d)", l.log[j-2].height)
+		}
 	}
 	im.window = "after:" + after + "/before:" + before
 	if j > 0 {
@@ -1743,15 +1761,15 @@ func (c *crCase) oracles(r *crRun, rels []crSigRel, twin *crFacts, inherited str
 	for _, x := range rels {
 		if x.rel == "!" && !seen[x.key] {
 			seen[x.key] = true
-			published := "replayed-original-wins"
-			for _, a := range r.life.acted {
-				if crSigKey(a.proposal, a.typ, a.height, a.round) == x.key && crBidKey(a.bid) == crBidKey(x.sig.bid) {
-					published = "published-again"
-				}
-			}
+			// a conflicting vote is added to the vote set and gossiped; a conflicting proposal is adopted
+			// (and gossiped) unless the logged one was replayed before it (setProposal keeps the first)
 			kind := "vote"
+			published := "published-again"
 			if x.sig.proposal {
 				kind = "proposal"
+				if r.replay == "replayed" || (r.repaired && r.replay == "no-marker") {
+					published = "replayed-original-wins"
+				}
 			}
 			fail("double-sign", fmt.Sprintf("what=%s key=%s %s start-height=%d replay=%s", kind, x.key, published, r.start, r.replay))
 		}
@@ -1903,6 +1921,7 @@ func crRunCase(o *crOut, idx int, r *crRand, tier string) {
 		}
 	}
 	env := crNewEnv(sc)
+	crArchiveMode = sc.archive
 	c := &crCase{o: o, r: r, env: env, thorough: tier == "thorough"}
 	// does a genesis state reloaded at height 0 equal the one MakeGenesisState builds?
 	{
